@@ -91,6 +91,12 @@ CLAIMED = {
         text="Configurations vary the working directory, relative vs absolute invocation path, TMPDIR, 0-50 extra environment variables, MALLOC_PERTURB_, ASLR (setarch -R), LANG, process ids (padding processes) and the compiler build itself (plain vs ASan: different allocator and layout). Compared: nano_virt --emit-nvm bytes, nanoc -S generated C bytes, exit statuses, and both tools' own diagnostics with the source path normalised. Programs come from progen plus a two-file import example.",
         note="No MSan toolchain: uninitialised-memory dependence is attacked only through MALLOC_PERTURB_/ASLR/allocator change. While the module-path finding is open, multi-module cases keep cwd and path form fixed (counted).",
         design="3/C19"),
+    "C20": dict(
+        category="exploration",
+        technique="Hypothesis-generated programs compiled natively with clang ASan+UBSan for runtime and generated code (oracle: no sanitizer report, normal or documented ending) + rapidcheck operation histories over dyn_array (all element kinds) and the reference-counting GC against reference models, in-process under ASan/UBSan",
+        text="(a) the NANO_CC shim switches nanoc's C compiler to clang -fsanitize=address,undefined for both src/runtime/*.c and the generated translation unit; progen programs with string building in loops, arrays of strings through calls, structs/unions/tuples holding heap values, early exits from nested scopes and recursion must run sanitizer-clean. (b) histories of new/push/pop/get/set/remove_at/clear/reserve/clone on dyn_array are compared with a std::vector after every command (length, capacity >= length, element type, all elements, clone independence); gc_alloc/gc_alloc_opaque/retain/release/collect histories are compared with a reference-count model (ref_count, live-object statistics, finalizer calls, contents).",
+        note="Leaks are outside the statement. HashMap/List<T> ownership paths and gc_struct are not generated; dyn_array_insert_* are declared but undefined in the runtime.",
+        design="3/C20"),
 }
 
 NOT_YET = {
